@@ -113,3 +113,55 @@ Definition rank (mask : option (list bool)) (v : nat) : nat :=
 (* the distinct perturbation vectors of one call, in engine order *)
 Definition vectors (shared : bool) (out : arr3) : list (list Q) :=
   concat (if shared then firstn 1 out else out).
+
+(* ---- _perturb_variables: which samplers run, in which order, and what becomes of their output ---- *)
+(* unique, indices = np.unique(np.compress(samplers >= 0, samplers), return_index=True);
+   sampler_indices = unique[np.argsort(indices)]: the non-negative entries of gradient.samplers in order
+   of FIRST APPEARANCE (all samplers draw from one generator, so the order is observable) *)
+Fixpoint first_appearance (seen : list Z) (a : list Z) : list Z :=
+  match a with
+  | [] => []
+  | s :: t => if Z.ltb s 0 || existsb (Z.eqb s) seen then first_appearance seen t
+              else s :: first_appearance (s :: seen) t
+  end.
+(* without gradient.samplers only samplers[0] is called *)
+Definition sampler_order (assign : option (list Z)) : list nat :=
+  match assign with None => [0%nat] | Some a => map Z.to_nat (first_appearance [] a) end.
+
+(* samples += other : both operands have shape (R, P, V); anything else is an error *)
+Fixpoint zip_with {A B C} (f : A -> B -> option C) (a : list A) (b : list B) : option (list C) :=
+  match a, b with
+  | [], [] => Some []
+  | x :: a', y :: b' =>
+      match f x y, zip_with f a' b' with Some z, Some t => Some (z :: t) | _, _ => None end
+  | _, _ => None
+  end.
+Definition add_vec (a b : list Q) : option (list Q) := zip_with (fun x y => Some (x + y)) a b.
+Definition add3 (a b : arr3) : option arr3 := zip_with (zip_with add_vec) a b.
+
+(* the outputs of the samplers called, in calling order; no sampler at all is an IndexError in ropt *)
+Definition total_samples (outs : list (option arr3)) : option arr3 :=
+  match outs with
+  | [] => None
+  | o :: t => fold_left (fun acc o' => match acc, o' with Some a, Some b => add3 a b | _, _ => None end) t o
+  end.
+
+(* variables + perturbation_magnitudes * samples (broadcast over realizations and perturbations);
+   no bound is finite / BoundaryType.NONE, so _apply_bounds is the identity *)
+Fixpoint perturb_vec (x mag vec : list Q) : option (list Q) :=
+  match x, mag, vec with
+  | [], [], [] => Some []
+  | xi :: x', mi :: m', si :: v' =>
+      match perturb_vec x' m' v' with Some t => Some (xi + mi * si :: t) | None => None end
+  | _, _, _ => None
+  end.
+Fixpoint map_opt {A B} (f : A -> option B) (l : list A) : option (list B) :=
+  match l with
+  | [] => Some []
+  | x :: t => match f x, map_opt f t with Some y, Some r => Some (y :: r) | _, _ => None end
+  end.
+Definition perturb (x mag : list Q) (samples : arr3) : option arr3 := map_opt (map_opt (perturb_vec x mag)) samples.
+
+(* the variable is perturbed by sampler k *)
+Definition owner_is (assign : option (list Z)) (varmask : option (list bool)) (k v : nat) : bool :=
+  handled (get_mask k assign varmask) v.
